@@ -8,12 +8,12 @@ import (
 )
 
 // Guarded inputs (enabled by the purity check C18 only): every byte slice handed out by Filler
-// gets 16 octets of spare capacity behind its length, filled with a sentinel, and a checksum
+// gets 96 octets of spare capacity behind its length, filled with a sentinel, and a checksum
 // of its content. After each evaluated case all of them are checked: code under test that
 // appends to a caller's slice (and thereby writes behind it), or that edits the content in
 // place, has modified an input it was only given to read.
 
-const guardLen = 16
+const guardLen = 96
 
 type guarded struct {
 	buf []byte // len = n + guardLen
